@@ -531,6 +531,12 @@ def dict_method(I, self, meth, args, kwargs, fr):
             if ctx.decide(S._b(I.veq(key, k)), 'dict.get'):
                 return h.fields['vals'][i]
         return args[1] if len(args) > 1 else VNone()
+    if meth in ('items', 'keys', 'values') and 'keys' in h.fields:
+        if meth == 'items':
+            items = [VTuple([k, v]) for k, v in zip(h.fields['keys'], h.fields['vals'])]
+        else:
+            items = list(h.fields['keys'] if meth == 'keys' else h.fields['vals'])
+        return ctx.alloc(HObj('list', 'list', {'items': items}, closed=True))
     hook = I.reg.heap_hook('dict')
     if hook:
         return hook.method(I, self, meth, args, kwargs, fr)
